@@ -3,8 +3,9 @@
 # usage: tools/matrix.sh <out file> [seed ids...]
 out=$1; shift
 seeds="$@"
-[ -z "$seeds" ] && seeds=$(ls /verif/seeded)
+here=$(cd $(dirname $0)/.. && pwd)
+[ -z "$seeds" ] && seeds=$(ls $here/seeded | grep -v MATRIX)
 checks="C01 C02 C03 C04 C05 C06 C07 C08 C09 C10 C11 C12 C13 C14 C15 C16 C17 C18 C19 C20"
 : > $out
-echo $seeds | tr ' ' '\n' | xargs -P 4 -I{} /verif/tools/run_seed.py {} quick $checks >> $out 2>&1
+echo $seeds | tr ' ' '\n' | xargs -P ${MATRIX_PAR:-4} -I{} $here/tools/run_seed.py {} quick ${MATRIX_CHECKS:-$checks} >> $out 2>&1
 echo MATRIX-DONE >> $out
